@@ -466,6 +466,18 @@ def _codec(body):
         if s_f == "ok":
             P("fetch:after-history", s_h == "ok" and hi.name() == fi.name() and hi.length() == fi.length(),
               f"an Emulator that decoded 'MV A,55; NOP' before decodes {data.hex()} as {hi.name() + '/' + str(hi.length()) if s_h == 'ok' else repr(hi)}, a fresh one as {fi.name()}/{fi.length()}")
+        if s_f == "ok":
+            bases = [("any", int(model.get("fetch_base", 0x2000)) & 0xFFFFF), ("last-byte", 0xFFFFF)]
+            if accepted and outcome == "ok":
+                bases.insert(1, ("top-aligned", 0x100000 - instr.length()))
+            for btag, fb in bases:
+                mem3 = {fb + i: x for i, x in enumerate(data)}
+                emu3 = EMU.Emulator(EMU.Memory(lambda a: mem3.get(a, 0), lambda a, v: mem3.__setitem__(a, v)), reset_on_init=False)
+                s_a, ai = hook(lambda: emu3.decode_instruction(fb))
+                P(f"fetch:{btag}-address:no-exception", s_a == "ok", repr(ai))
+                if s_a == "ok":
+                    P(f"fetch:{btag}-address:same-name-and-length", ai.name() == fi.name() and ai.length() == fi.length(),
+                      f"fetch at {fb:#07x} gives {ai.name()}/{ai.length()}, at 0x1000 {fi.name()}/{fi.length()}")
         if want == "C01":
             for cut in range(0, CD.FULL):
                 s_c, ic = hook(lambda: arch.get_instruction_info(data[:cut], addr))
